@@ -32,7 +32,7 @@ func init() {
 		Technique: "term agreement between witnessed key and storage key, must-facts at the stores (state guards), exit-fact equivalences (both representations touched together), dispatch coverage of the state enumeration",
 		Explanation: "D1 the key under which a candidate is stored is the witnessed term (AddPeer: nodeInfo[2:35], AddNode: n.Key, UpdateState: publicKey) and both witnesses are required (C03). D2 the state stored on add is Online. " +
 			"D3 every effect of updateCandidateState happens under state ∈ {Online, Offline, Maintenance} (= the declared enumeration), the default arm cannot return. D4 removeFromNetmap deletes 'candidate'‖k and '2'‖k with the same k on every path; updateNetmapState rewrites every representation that is present (exit facts: absent ∨ rewritten) as the stored record with only State replaced by the requested state, and cannot return normally with no write. " +
-			"D5 exactly one UpdateStateSuccess(key, state) per successful update, AddPeerSuccess/AddNode exactly with their store, no other emitters.",
+			"D5 exactly one UpdateStateSuccess(key, state) per successful update, AddPeerSuccess/AddNode exactly with their store, no other emitters. D0 every effect of AddPeer/AddPeerIR/AddNode/UpdateState/UpdateStateIR/DeleteNode is gated by the documented witnesses (the gate rule of C03).",
 		NotCovered: "agreement with a reference model over operation histories; well-formedness of the node BLOB.",
 		Run:        runC07,
 	})
@@ -41,7 +41,7 @@ func init() {
 		Level:     "other",
 		Technique: "divisor-non-zero rule over storage writers (must-facts at every writer of the count key), sibling agreement of the retention bounds read off the loop header as canonical linear terms, must-facts at the ring index computation",
 		Explanation: "D1 NewEpoch and Snapshot compute '% stored snapshotCount'; every writer of that key stores a value established > 0 (so any accepted count leaves the contract able to tick). D2 NewEpoch keeps the per-epoch lists of epochs (e−N, e] (drops e−N under e > N); the drop loop of UpdateSnapshotCount covers exactly [cur−old+1, cur−new] (bounds read off the loop as linear terms over the stored epoch, the stored old count and the parameter). " +
-			"D3 Snapshot establishes 0 ≤ diff < count before indexing the ring; ListNodesEpoch scans 'p'‖BE4(epoch) with the same fixed-width encoder that NewEpoch and dropNetmap use.",
+			"D3 Snapshot establishes 0 ≤ diff < count before indexing the ring; ListNodesEpoch scans 'p'‖BE4(epoch) with the same fixed-width encoder that NewEpoch and dropNetmap use. D4 every normal path of UpdateSnapshotCount on which the window shrinks runs the drop loop (skip-edge rule); writer, reader and dropper of the per-epoch lists use one structurally identified fixed-width encoder.",
 		NotCovered: "correctness of the legacy ring rotation (moveSnapshot index arithmetic, modular positions after repeated resizes): relations between run-time integers, not decidable by this family — declared not applicable for that clause.",
 		Run:        runC08,
 	})
